@@ -32,6 +32,8 @@ type SeqCfg struct {
 	// possibly with the same connection id): the observed tunnel starts from a non-initial
 	// gateway state. Dials and backend bytes of the prelude are not attributed to the steps.
 	Prelude func(w *World, h http.Handler, gw *protocol.Gateway)
+	// Authenticated: the request's identity is marked authenticated (a client that passed an HTTP-level scheme)
+	Authenticated bool
 	// BackendWindow: see World.BackendWindow (the host reads only when a segment with Action "hostdrain" says so)
 	BackendWindow int
 }
@@ -109,6 +111,9 @@ func RunSeq(cfg SeqCfg, segs []Seg) *SeqResult {
 			}
 		}
 		id := NewIdentity(cfg.User, cfg.ClientIP, cfg.RemoteAddr)
+		if cfg.Authenticated {
+			id.SetAuthenticated(true)
+		}
 		if cfg.Prelude != nil {
 			cfg.Prelude(w, h, gw)
 			vsched.WaitIdle()
